@@ -14,7 +14,7 @@ from typing import Any, Dict, List, Optional, Tuple
 
 import numpy
 
-from .. import prelude, core, model, fileseam
+from .. import prelude, core, model, fileseam, seams
 from ..runner import NUMPOLY_DIR
 
 ID = "C20"
@@ -137,6 +137,8 @@ def generate(rs: int, tier: str, index: int) -> dict:
         if kind in ("deriv", "mul", "pow", "align", "struct", "pickle"):
             # observe: check the stage's result but go on with the *same object* (an earlier call must not have touched it)
             st["observe"] = c.chance(0.5)
+        if kind in ("struct", "align", "mul", "pow", "deriv", "eval1", "evalpart", "pickle") and c.sub("abort").chance(0.12):
+            st["abort_first"] = c.sub("abort").below(100000)  # the same request, made once before and aborted part-way
         if kind == "pickle":
             st["protocol"] = c.below(6)
         if kind == "text":
@@ -278,6 +280,29 @@ class Runner:
         self.events.append(["mulrow", b])
 
     # -- journey -----------------------------------------------------------------
+    @staticmethod
+    def _raw_stage(p: Any, st: dict, names: List[str], nv: int) -> Any:
+        """The bare library call of a stage (no bookkeeping), for the aborted first attempt."""
+        import numpoly
+
+        kind = st["stage"]
+        if kind == "struct":
+            return numpoly.polynomial(p.values, names=p.names)
+        if kind in ("align", "mul"):
+            partner = (_build_subset if st.get("subset_names") else _build)(_to_model(st["partner"]), names)
+            return numpoly.align_polynomials(p, partner) if kind == "align" else p * partner
+        if kind == "pow":
+            return p ** min(st["n"], 3)
+        if kind == "deriv":
+            return numpoly.derivative(p, names[st["var"]])
+        if kind == "eval1":
+            return p(*([1] * nv))
+        if kind == "evalpart":
+            return p(**{names[i]: 1 for i in st.get("vars", [])}) if st.get("vars") else None
+        if kind == "pickle":
+            return pickle.loads(pickle.dumps(p, protocol=st["protocol"]))
+        return None
+
     def do_journey(self, step: dict) -> None:
         import numpoly
 
@@ -311,6 +336,8 @@ class Runner:
             want: Optional[Dict[tuple, int]] = None
             scalar_want = None
             env_tag = ""
+            if st.get("abort_first") is not None and big(m) <= 600:
+                seams.interrupted_first(lambda: self._raw_stage(p, st, names, nv), NUMPOLY_DIR, st["abort_first"], self.stats)
             try:
                 if kind == "struct":
                     raw = p.values
